@@ -63,6 +63,16 @@ func render(id int, hist []l1.Call, seed int64) *rendered {
 				line = fmt.Sprintf("%d Accepted publickey for %s from %s port %d ssh2: ED25519-CERT SHA256:YI+caZKJCNaXgsD0NvRZ2fLaEeF46cEVyadru/SL76o ID %s@example.com (serial %d) CA ED25519 SHA256:Pcs5TWfcOSKb7Rw/XyvHfUcaQzmw6HtLrjUoyXuzIj8",
 					pid, user, ip, port, user, c.ID)
 			}
+			// now and then the successful login is preceded by a long series of failed attempts from the SAME address
+			// (a client behind the same NAT, a user fumbling): each is its own failed UserLogin, and the success that
+			// follows is recorded like any other
+			if rng.Intn(3) == 0 {
+				n := 32 + rng.Intn(14)
+				for k := 0; k < n; k++ {
+					r.script.Sshd = append(r.script.Sshd, fmt.Sprintf("%d Failed password for %s from %s port %d ssh2", 60000+rng.Intn(5000), user, ip, 1024+rng.Intn(60000)))
+					r.script.NFailed++
+				}
+			}
 			r.script.Sshd = append(r.script.Sshd, line)
 			r.calls = append(r.calls, c)
 			// bursts of failed attempts by other clients share the sshd pipe (they do not concern the correlator)
